@@ -28,6 +28,7 @@ type Prog struct {
 	GOARCH  string
 	Sizes   types.Sizes
 	Renamed []string // "kind current -> reference" for identifiers canonicalised before analysis
+	Inlined []string // "helper inlined into caller" (inline.go)
 
 	ssaProg  *ssa.Program
 	ssaPkgs  map[string]*ssa.Package
@@ -67,16 +68,30 @@ func Load(repo, goarch string, overlay map[string][]byte) (*Prog, error) {
 		return p, err
 	}
 	ov, renames := p.canonicalOverlay(overlay)
-	if len(renames) == 0 {
-		return p, nil
+	if len(renames) > 0 {
+		if p2, err2 := loadOnce(repo, goarch, ov); err2 == nil {
+			p2.Renamed = renames
+			p = p2
+			overlay = ov
+		}
+		// else: the reverse renaming did not type-check (name clash): analyse the tree as it is
 	}
-	p2, err2 := loadOnce(repo, goarch, ov)
-	if err2 != nil {
-		// the reverse renaming did not type-check (name clash): analyse the tree as it is
-		return p, nil
+	// extracted helpers are substituted for their calls (inline.go); twice, for a helper of a helper
+	for round := 0; round < 2; round++ {
+		iov, notes := p.inlineOverlay(overlay)
+		if len(notes) == 0 {
+			break
+		}
+		p3, err3 := loadOnce(repo, goarch, iov)
+		if err3 != nil {
+			break // does not type-check: analyse the tree as it is
+		}
+		p3.Renamed = p.Renamed
+		p3.Inlined = append(p.Inlined, notes...)
+		p = p3
+		overlay = iov
 	}
-	p2.Renamed = renames
-	return p2, nil
+	return p, nil
 }
 
 func loadOnce(repo, goarch string, overlay map[string][]byte) (*Prog, error) {
